@@ -441,6 +441,57 @@ def _nt_prog(case):
     return case['D'] >= 2 and any(p.ndim >= 2 for p in case['pts'])
 
 
+# mixed operand dtypes: a kernel that sizes its work arrays from ONE operand's dtype may fall back to working inside the other
+# operand (seeded C14-16).  Binary operations on (real, complex), (complex, real), (float32, float64) ... UTPM pairs under byte
+# snapshots; the call is made twice and must give the same result (an operand modified by the first call changes the second).
+_MIXED = {
+    'solve': (lambda a, b: UTPM.solve(a, b), 'mat', 'rhs'), 'dot': (lambda a, b: UTPM.dot(a, b), 'mat', 'rhs'),
+    'dot-vec': (lambda a, b: UTPM.dot(a, b), 'mat', 'vec'), 'outer': (lambda a, b: UTPM.outer(a, b), 'vec', 'vec'),
+    'add': operator.add, 'sub': operator.sub, 'mul': operator.mul, 'truediv': operator.truediv,
+}
+_MIXED = {k: (v if isinstance(v, tuple) else (v, 'mat', 'mat')) for k, v in _MIXED.items()}
+_DT = {'f8': np.float64, 'c16': np.complex128, 'f4': np.float32, 'c8': np.complex64}
+
+
+@st.composite
+def mixed_dtype_cases(draw, tier, op):
+    D = draw(st.sampled_from([3, 2, 4, 1]))
+    P = draw(st.integers(1, 2))
+    n = draw(st.integers(2, 3))
+    k = draw(st.integers(1, 3))
+    shapes = {'mat': (n, n), 'rhs': (n, k), 'vec': (n,)}
+    _, ka, kb = _MIXED[op]
+    def operand(kind, dt):
+        shp = shapes[kind]
+        re = draw(gen.float_array((D, P) + shp, gen.nice_floats(-1.0, 1.0), sparse=False))
+        if kind == 'mat':
+            re[0] += 3.0 * np.eye(n)          # base matrices diagonally dominant: solve / truediv stay regular
+        if dt.startswith('c'):
+            im = draw(gen.float_array((D, P) + shp, gen.nice_floats(-1.0, 1.0), sparse=False))
+            return (re + 1j * im).astype(_DT[dt])
+        return re.astype(_DT[dt])
+    da, db = draw(st.sampled_from([('f8', 'c16'), ('c16', 'f8'), ('f4', 'f8'), ('f8', 'f4'), ('f4', 'c16'), ('c8', 'f8'), ('f8', 'c16')]))
+    return {'op': op, 'a': operand(ka, da), 'b': operand(kb, db), 'dts': [da, db]}
+
+
+def prop_mixed_dtype(case, stats):
+    f = _MIXED[case['op']][0]
+    a, b = UTPM(case['a'].copy()), UTPM(case['b'].copy())
+    sa, sb = a.data.tobytes(), b.data.tobytes()
+    with np.errstate(all='ignore'):
+        y1 = guard(lambda: f(a, b))
+    for nm, x, snap, orig in (('first', a, sa, case['a']), ('second', b, sb, case['b'])):
+        if x.data.tobytes() != snap or x.data.dtype != orig.dtype:
+            bad = np.argwhere(~((x.data == orig) | (np.isnan(x.data) & np.isnan(orig))))
+            raise Violation('%s(%s, %s): the call modified its %s operand (first difference at %s)'
+                            % (case['op'], case['dts'][0], case['dts'][1], nm, tuple(int(i) for i in bad[0]) if len(bad) else 'dtype/bytes'))
+    with np.errstate(all='ignore'):
+        y2 = guard(lambda: f(a, b))
+    if not (isinstance(y1, UTPM) and isinstance(y2, UTPM)) or y1.data.shape != y2.data.shape or not np.array_equal(y1.data, y2.data, equal_nan=True):
+        raise Violation('%s(%s, %s): the same call on the same operand objects gives a different result the second time'
+                        % (case['op'], case['dts'][0], case['dts'][1]))
+
+
 def buckets(tier):
     bl = []
     for fam in M.FWD_SINGLE:
@@ -449,6 +500,10 @@ def buckets(tier):
     bl.append(Bucket('operands:compose', (lambda: M.meta_cases(tier, max_len=8)), prop_operands,
                      {'quick': 40, 'thorough': 500}, nontrivial=_nt_prog, classes=M.base_classes,
                      shards={'quick': 4, 'thorough': 8}, weight=3.0))
+    for op in sorted(_MIXED):
+        bl.append(Bucket('operands:mixed-dtype:' + op, (lambda op=op: mixed_dtype_cases(tier, op)), prop_mixed_dtype, {'quick': 40, 'thorough': 500},
+                         nontrivial=(lambda case: case['a'].shape[0] >= 2),
+                         classes=(lambda case: ['dtypes=%s,%s' % tuple(case['dts']), 'D=%d' % case['a'].shape[0], 'P=%d' % case['a'].shape[1]])))
     for op in RECALL:
         bl.append(Bucket('recall:' + op, (lambda op=op: recall_cases(tier, op)), prop_recall, {'quick': 25, 'thorough': 250},
                          nontrivial=_nt_alias, classes=(lambda case: _cl_alias(case) + ['update=' + case['update']])))
